@@ -27,7 +27,7 @@ MIN_EVENTS = {"quick": {"evaluations": 15000, "documents_valid": 12000, "require
 
 
 def n_cases(tier):
-    return 1200 if tier == "quick" else 40000
+    return 1200 if tier == "quick" else 120000
 
 
 def worker_setup(tier, rec):
